@@ -32,7 +32,7 @@ METHODS = ("greedy", "random-greedy", "labels", "labels-agglom", "kahypar", "kah
 PARTITION_DIVISIVE = ("labels", "kahypar", "kahypar-balanced")
 NEED_MODULE = {"kahypar": "kahypar", "kahypar-balanced": "kahypar", "kahypar-agglom": "kahypar"}
 SIZE_VALUES = (2, 3, 2, 5, 1, 2, 3, 4)
-CALL_TIMEOUT = 30.0
+CALL_TIMEOUT = 15.0
 
 _DEADLINE = None
 
